@@ -36,6 +36,18 @@ centre within 1e-9 of the middle between two bins may be assigned to either.
 ``row_info`` therefore returns *every* admissible row (``alternatives``); the
 first alternative is the "limits inclusive / lower bin" one and is what
 ``matrix`` returns, together with a mask of the rows that have alternatives.
+
+Exact window ends (``row_info(..., closed_ends=True)``).  The guard above exists
+because a floating-point comparison near the limit may legitimately round either
+way.  Where the tie is EXACT - in rational arithmetic on the given doubles the
+sample's distance from the centre equals the half-width (linear kernels:
+|f - fc| == b/2; log kernels: the half-width is a whole number k of decades and
+f == fc 10^k or f 10^k == fc) - there is nothing to round: f - fc (resp. f / fc)
+is computed without error by IEEE arithmetic, and the pinned support is closed, so
+the sample IS inside.  With ``closed_ends=True`` such samples are listed under
+``ends`` and ``certain`` instead of ``knife`` (kernels whose weight vanishes at the
+end - the triangular ones - and Parzen, whose half-width is irrational, keep the
+guard).  The default (False) is the behaviour other checks were built on.
 """
 import itertools
 import math
@@ -94,6 +106,21 @@ def _weight(op, f, fc, bw):
     if op in ("linear_triangular", "log_triangular"):
         return 1.0 - abs(d) / (bw / 2.0)
     raise KeyError(op)
+
+
+def exact_window_end(op, f, fc, bw):
+    """True if sample f lies EXACTLY on an end of the closed window of centre fc:
+    decided in rational arithmetic on the doubles handed over, no rounding."""
+    F, C, B = Fraction(float(f)), Fraction(float(fc)), Fraction(float(bw))
+    if op in ("linear_rectangular", "linear_triangular"):
+        return abs(F - C) == B / 2
+    if op == "parzen":                      # sqrt(6) 280 pi / (302 b) is irrational
+        return False
+    L = Fraction(3) / B if op == "konno_and_ohmachi" else B / 2
+    if L.denominator != 1 or not 0 < L <= 22:      # 10**L is rational only for whole L
+        return False
+    p = Fraction(10) ** int(L)
+    return F == C * p or F * p == C
 
 
 def _normalise(nf, idx, w):
@@ -161,7 +188,7 @@ def _sg_info(freqs, fc, m):
     nf = len(freqs)
     w = sg_weights(m)
     h = (int(m) - 1) // 2
-    info = dict(certain=[], knife=[], dc_in_reach=False, centre_bins=[], fits=[])
+    info = dict(certain=[], knife=[], dc_in_reach=False, centre_bins=[], fits=[], ends=[])
     if fc < F_MIN:
         info["alternatives"] = [[0.0] * nf]
         return info
@@ -186,8 +213,11 @@ def _sg_info(freqs, fc, m):
 # ---------------------------------------------------------------------------
 # public API
 
-def row_info(op, freqs, fc, bw):
+def row_info(op, freqs, fc, bw, closed_ends=False):
     """Everything the reference says about one centre frequency.
+
+    closed_ends: samples EXACTLY on a window end (see module docstring) are inside
+    (``certain`` and ``ends``) instead of knife-edge.
 
     Returns a dict with
       alternatives : list of admissible normalised rows (lists of len(freqs) floats)
@@ -202,7 +232,7 @@ def row_info(op, freqs, fc, bw):
     if op == "savitzky_and_golay":
         return _sg_info(freqs, fc, bw)
     bw = float(bw)
-    info = dict(certain=[], knife=[], dc_in_reach=False)
+    info = dict(certain=[], knife=[], dc_in_reach=False, ends=[])
     if fc < F_MIN:
         info["alternatives"] = [[0.0] * nf]
         return info
@@ -216,7 +246,12 @@ def row_info(op, freqs, fc, bw):
         d = abs(_distance(op, f, fc))
         scale = max(limit, 1.0) if _is_log(op) else max(limit, abs(f), abs(fc))
         if abs(d - limit) <= KNIFE * scale:
-            info["knife"].append(i)
+            if (closed_ends and op in ("konno_and_ohmachi", "linear_rectangular", "log_rectangular")
+                    and exact_window_end(op, f, fc, bw)):
+                info["certain"].append(i)
+                info["ends"].append(i)
+            else:
+                info["knife"].append(i)
         elif d < limit:
             info["certain"].append(i)
         else:
@@ -232,21 +267,21 @@ def row_info(op, freqs, fc, bw):
     return info
 
 
-def matrix(op, freqs, fcs, bw):
+def matrix(op, freqs, fcs, bw, closed_ends=False):
     """Dense reference matrix W[fc, f] and the mask of rows that are knife-edge
-    (rows for which more than one outcome is admissible)."""
+    (rows for which more than one outcome is admissible).  closed_ends: see row_info."""
     rows = []
     knife = []
     for fc in fcs:
-        info = row_info(op, freqs, fc, bw)
+        info = row_info(op, freqs, fc, bw, closed_ends=closed_ends)
         rows.append(info["alternatives"][0])
         knife.append(len(info["alternatives"]) > 1)
     return np.array(rows, dtype=float).reshape(len(rows), len(freqs)), np.array(knife, dtype=bool)
 
 
-def smooth(op, freqs, spectrum, fcs, bw):
+def smooth(op, freqs, spectrum, fcs, bw, closed_ends=False):
     """Reference smoothing of spectrum rows: out[row, fc] = sum_f W[fc, f] spectrum[row, f]."""
-    W, knife = matrix(op, freqs, fcs, bw)
+    W, knife = matrix(op, freqs, fcs, bw, closed_ends=closed_ends)
     out = [[math.fsum(W[c, j] * float(row[j]) for j in range(len(freqs))) for c in range(len(fcs))]
            for row in spectrum]
     return np.array(out, dtype=float).reshape(len(out), len(fcs)), knife
